@@ -402,6 +402,9 @@ def spec_c01(c):
     if c["stream"] == "node" and has(c, NODE, "class", "inf") and not has(c, NODE, "kids_ok"):
         return "C01: a subproblem generates a child that cancels a fixed course / is not well formed (the invariants NoFix / Wf2 of generated " \
                "subproblems, checked on the implementation's own children)"
+    if c["stream"] == "gate" and (c["code"] & 2) and not (c["code"] & 4):
+        return "C01: the room stage of a well-formed subproblem produces a child that cancels a fixed / enforced course or shrinks a course below " \
+               "its minimum size (the invariants NoFix / Wf2 of generated subproblems, checked on the implementation's own constraint sets)"
     return None
 
 
@@ -492,6 +495,11 @@ def cli_records(ctx, seed, count, variants, rooms_mode=2):
     tcodes = clirun.eval_text_cases(ctx, [clirun.g_text_case(r) for r in trecs])
     for r, c in zip(trecs, tcodes):
         r["text_code"] = c
+    # document level: the whole JSON value of every output file against WriteDoc.simple_doc (CorrDoc.check_simple_doc)
+    drecs = [r for r in recs if r["run"]["rc"] == 0 and isinstance(r.get("out_doc"), dict)]
+    dcodes = clirun.eval_doc_cases(ctx, [clirun.g_doc_case(r) for r in drecs])
+    for r, c in zip(drecs, dcodes):
+        r["doc_code"] = c
     CLI_STATE[key] = (metas, recs)
     return metas, recs
 
@@ -604,6 +612,12 @@ def cde_rooms_stage(ctx, pid, bit, what):
             viol.append((pid + ": the reader model refuses an export the binary solved (CdE rooms stage)",
                          ctx.replay({"kind": "no-failing-input-found", "stream": "cde-rooms", "broken": "CorrCdeRooms.check_cde_rooms: reader model refuses",
                                      "case": {k: r[k] for k in ("args", "exit", "export")}}), True))
+        elif r.get("doc_code") is not None and (r["doc_code"] & 1) and (r["doc_code"] & 14) != 14 and (c & bit):
+            stats["document_differs"] += 1
+            viol.append((pid + ": correspondence CorrDoc.check_cde_doc: the import document (with the possible-rooms field) differs from the model "
+                         "WriteDoc.write_doc [bits %d]" % r["doc_code"],
+                         ctx.replay({"kind": "no-failing-input-found", "stream": "cde-rooms", "broken": "CorrDoc.check_cde_doc",
+                                     "case": {k: r[k] for k in ("args", "exit", "export", "import", "rooms")}}), True))
         elif not (c & bit):
             viol.append((what + ": " + " ".join(r["args"][:-2])[:200],
                          ctx.replay({"kind": "failing-input", "stream": "cde-rooms", "what": what,
@@ -700,6 +714,11 @@ def c14_cli(ctx, cases):
                 "hidden names, room line, people in input order with instructor flag, hidden names; ListingText.print_stage evaluated in Coq)"
         elif r["variant"]["threads"] == 1 and m["lib"]["result"] and list(r["out"][0]) != m["lib"]["result"]["assignment"]:
             w = "C14: the written assignment differs from the assignment caobab::solve returned for the same instance (1 worker)"
+        elif r.get("doc_code") is not None and (r["doc_code"] & 1) and (r["doc_code"] & 2) and not (r["doc_code"] & 4):
+            w = "C14: the output document is not the documented one for its assignment array (keys format / version / assignment / quality with " \
+                "solution_score, theoretical_max_score and the two binary32 quality figures; WriteDoc.simple_doc evaluated in Coq)"
+        if r.get("doc_code") is not None:
+            stats["output_documents_compared_as_whole_json_values"] += 1
         if r["variant"].get("print") and isinstance(r["listing"], list):
             stats["listings_compared"] += 1
             if r.get("text_code") is not None:
@@ -1107,14 +1126,16 @@ def cde_oracle_c11(r):
     return None
 
 
-def e2e_checks(ctx, pid, seed, count, opts_fn, what_prefix):
+def e2e_checks(ctx, pid, seed, count, opts_fn, what_prefix, rooms=False, cov_key="cli_runs"):
     binpath = vlib.build_cli()
-    recs = cde.e2e_cases(ctx, seed, count, binpath, opts_fn=opts_fn)
-    viol, dis = [], []
+    recs = cde.e2e_cases(ctx, seed, count, binpath, opts_fn=opts_fn, rooms=rooms)
+    viol, dis, dis_doc = [], [], []
     st = Counter()
     for r in recs:
         c = r["code"]
         st["runs"] += 1
+        if r.get("doc_code") is not None:
+            st["documents_compared_as_whole_json_values"] += 1
         st["exit_%s" % r["exit"]] += 1
         if r["ignore_assigned"]:
             st["ignore_assigned"] += 1
@@ -1134,20 +1155,33 @@ def e2e_checks(ctx, pid, seed, count, opts_fn, what_prefix):
             w = "%s: the assignment encoded by the import file violates the hard constraints of the problem" % what_prefix
         elif r["exit"] == 0 and cde_oracle_c11(r):
             w = cde_oracle_c11(r)
+        elif r["exit"] == 0 and rooms and r.get("rooms_code") is not None and (r["rooms_code"] & 1) and not (r["rooms_code"] & 2):
+            w = "%s: with room options the written assignment cannot be housed when the places of the ignored pre-assigned people are counted " \
+                "(effective sizes from the export's factor / offset fields plus the reserved places, housedb evaluated in Coq)" % what_prefix
         elif r["exit"] == 0 and not c & cde.IMP["write_agree"]:
             dis.append(r)
+        elif r["exit"] == 0 and r.get("doc_code") is not None and (r["doc_code"] & 1) and (r["doc_code"] & 14) != 14:
+            dis_doc.append(r)
         elif r["exit"] != 0 and r["lists"] is not None:
             w = "%s: an import file was written although the exit status is %s" % (what_prefix, r["exit"])
         if r["exit"] == 0:
             st["files_checked"] += 1
+        if rooms and r.get("rooms"):
+            st["rooms_%s" % r["rooms"]["rooms_arg"][0]] += 1
         if w:
-            viol.append((w, ctx.replay({"kind": "failing-input", "stream": "cde-e2e", "what": w, "case": brief_cde(r)}), False))
+            viol.append((w, ctx.replay({"kind": "failing-input", "stream": "cde-e2e", "what": w, "case": dict(brief_cde(r), args=r.get("args"))}), False))
     if dis and not viol:
         r = dis[0]
         what = "correspondence CorrCde.check_import: the import file differs from the model Cde.write_regs / write_courses, or the model refuses an export the binary accepts"
         viol.append((what + " (%d runs)" % len(dis), ctx.replay({"kind": "no-failing-input-found", "stream": "cde-e2e", "broken": what,
                                                                   "first_disagreeing_case": brief_cde(r), "disagreements": len(dis)}), True))
-    ctx.extra_cov = dict(getattr(ctx, "extra_cov", {}) or {}, cli_runs=dict(st))
+    if dis_doc and not viol:
+        r = dis_doc[0]
+        what = "correspondence CorrDoc.check_cde_doc: the import document differs from the model WriteDoc.write_doc (keys, schema version, kind, event id, " \
+               "registrations / courses objects, possible-rooms field, fixed part of the summary) [bits %d]" % r["doc_code"]
+        viol.append((what + " (%d runs)" % len(dis_doc), ctx.replay({"kind": "no-failing-input-found", "stream": "cde-e2e", "broken": what,
+                                                                      "first_disagreeing_case": dict(brief_cde(r), document=r.get("import")), "disagreements": len(dis_doc)}), True))
+    ctx.extra_cov = dict(getattr(ctx, "extra_cov", {}) or {}, **{cov_key: dict(st)})
     return viol[:4], []
 
 
@@ -1167,6 +1201,10 @@ def c11_opts(r, ex):
 def c11_extra(ctx, cases):
     n = 80 if ctx.tier == "quick" else 900
     v1, k1 = e2e_checks(ctx, "C11", ctx.seed + 11, n, c11_opts, "C11")
+    # ... and with room options (--rooms / --rooms-file, factor / offset fields): "room fitting counts both groups", courses of ignored people
+    # are never cancelled by the room stage either
+    v3, k3 = e2e_checks(ctx, "C11", ctx.seed + 12, (40 if ctx.tier == "quick" else 400), c11_opts, "C11", rooms=True, cov_key="cli_runs_rooms")
+    v1, k1 = v1 + v3, k1 + k3
     # the reserved places / fixed flag / room offset of courses with ignored people: reader correspondence
     v2, k2 = c12_extra(ctx, cases, for_c08=True)
     return (v1 + v2)[:4], k1 + k2
@@ -1340,13 +1378,14 @@ def streams_node_solve(rooms):
         s1, c1 = node_stream(ctx, ctx.seed + off, 250 * scale, rooms=rooms, max_c=(9 if rooms == 1 else 6))
         s2, c2 = solve_stream(ctx, ctx.seed + off + 1, 120 * scale, rooms=rooms)
         cs = corpus_cases(ctx, "solve") if off == 0 else []      # minimised inputs of earlier findings run first (corpus/<id>_solve.json)
-        return [s1, s2], cs + c1 + c2
+        s3, c3 = gate_stream(ctx, ctx.seed + off + 7, 300 * scale)   # the room stage alone at realistic sizes (fixed / enforced courses in conflicts)
+        return [s1, s2, s3], cs + c1 + c2 + c3
     return f
 
 
 def streams_c10(ctx, scale, off):
     ss, cs = streams_node_solve(2)(ctx, scale, off)
-    s3, c3 = gate_stream(ctx, ctx.seed + off + 7, 600 * scale)
+    s3, c3 = gate_stream(ctx, ctx.seed + off + 8, 600 * scale)
     return ss + [s3], cs + c3
 
 
@@ -1354,7 +1393,8 @@ def streams_solver_tie(ctx, scale, off):
     """C05 / C11 are stated for hard-feasible assignments: the tie of the solver to its model (C01) is part of what they rest on"""
     s1, c1 = node_stream(ctx, ctx.seed + off + 21, 150 * scale, rooms=2)
     s2, c2 = solve_stream(ctx, ctx.seed + off + 22, 60 * scale, rooms=2)
-    return [s1, s2], c1 + c2
+    s3, c3 = gate_stream(ctx, ctx.seed + off + 23, 300 * scale)
+    return [s1, s2, s3], c1 + c2 + c3
 
 
 def c08_extra(ctx, cases):
@@ -1415,10 +1455,14 @@ REGISTRY = {
         explanation="C05 (Cde theorems): for the problem the reader builds, every hard-feasible assignment (C01) is written as an import file that "
                     "satisfies import_ok: only ids of the problem, each assigned registration in a course marked active that the person chose or "
                     "instructs, active courses within their limits, nobody in a cancelled course; C05_file: the writer model's file for any hard-feasible "
-                    "assignment passes the executable check import_okb.  The real import files are parsed, compared with the writer model and checked "
-                    "by import_okb.",
-        trusted_base=["modelled, not verified: cdedb.rs read()/write() (registrations and segments; summary text, timestamps and the rooms field are "
-                      "not modelled); the meaning of a partial import in the CdE Datenbank is taken from the property text"],
+                    "assignment passes the executable check import_okb; C05_ids_distinct / C05_export_file: its hypothesis 'pairwise distinct ids' holds for every "
+                    "accepted export with canonical decimal keys (object keys are distinct, parse_u64 is injective on canonical keys); C05_document: the whole "
+                    "JSON value of the import file (WriteDoc.write_doc: every key) is read by a strict import side as exactly the registration pairs and course "
+                    "rows it was made from, the selected track only; C05_keys_parse_back (parse_u64 (zstr z) = Some z for all u64).  The real import files are "
+                    "compared AS WHOLE JSON VALUES with the writer model (CorrDoc.check_cde_doc, incl. the fixed part of the summary and the possible-rooms field), "
+                    "parsed, and checked by import_okb.",
+        trusted_base=["modelled, not verified: cdedb.rs read()/write() (whole document modelled as a JSON value; of the summary only the part before the wall-clock time, "
+                      "the timestamp not at all); the meaning of a partial import in the CdE Datenbank is taken from the property text"],
         assumptions=["registrations the reader drops (not 'participant', no valid choice and no instructed course) keep what the database holds"]),
     "C11": dict(mk(spec_c01, streams_solver_tie, "solver tie as C05; as C05 with dense existing assignments (as attendee, as instructor of the same or another course, to "
                    "cancelled / not offered courses, beyond max_size, below min_size) and the three option sets with an ignore flag; plus an "
@@ -1539,7 +1583,9 @@ REGISTRY = {
                    "participants without choices), binary run with --print and an output file, 1 and 3 threads, --rooms/--rooms-file; stdout "
                    "parsed back into (course, count, [(participant, flag)], hidden) and compared in Coq with Listing.listing of the written array",
                    extra_fn=c14_cli), allow_axioms=(),
-        explanation="C14_partition / C14_flags / C14_count / C14_once about the structural model of format_assignment (Listing.listing): under "
+        explanation="C14_document / C14_document_round_trip / C14_document_entries: the output document (WriteDoc.simple_doc = the JSON value simple::write serialises, compared as a "
+                    "whole with every real output file) has exactly the documented keys, its array has one entry per participant, each null or a valid course index, and reads back as the assignment.  "
+                    "C14_partition / C14_flags / C14_count / C14_once about the structural model of format_assignment (Listing.listing): under "
                     "each course exactly the people the array assigns to it, flagged exactly its instructors, count = people + hidden names; "
                     "C14_array: the array shape follows from C01's HardOK.  C14_text: for every accepted input document the TEXT written by --print "
                     "(ListingText.print_stage: model of main.rs's print! and io::format_assignment on the instance as the reader model reads it) "
@@ -1547,8 +1593,8 @@ REGISTRY = {
                     "stdout is compared byte for byte with the model text inside Coq (CorrCliText.check_text, incl. hidden names and the room "
                     "line for --rooms and --rooms-file with split kinds, empty kinds, non-ASCII kind names); additionally the output file and the "
                     "listing are parsed and checked against the structural model.",
-        trusted_base=["modelled, not verified: src/io.rs format_assignment (exact text, compared bytewise), src/io/simple.rs writer (keys observed on "
-                      "the real file); serde_json text encoding trusted; for the structural comparison names are generated unique, without newline "
+        trusted_base=["modelled, not verified: src/io.rs format_assignment (exact text, compared bytewise), src/io/simple.rs writer (whole output document as a JSON value, WriteDoc.simple_doc, compared with every "
+                      "real output file incl. the quality object with binary32 bit patterns); serde_json text encoding trusted; for the structural comparison names are generated unique, without newline "
                       "and without the suffix ' (instr)' (the listing is ambiguous otherwise)"],
         assumptions=["participant and course names are unique in the generated instances (needed to parse the listing back)"]),
 
@@ -1572,7 +1618,8 @@ REGISTRY = {
         assumptions=["room_factor/room_offset enter the model as the f32 bit patterns the program holds after parsing"]),
     "C08": dict(mk(spec_c08, streams_c08, RULE_NS + "; quality stream: 1-20000 participants with choices, scores with small/odd/large total penalty, external quality data; CdE reader stream: the penalties of ignored pre-assigned participants (AssignmentQualityInfo) compared with the reader model under all ignore-flag combinations", extra_fn=c08_extra), allow_axioms=(),
         explanation="C08_score_node / C08_score (score = score recomputed from the assignment, every schedule), C08_quality (numerator = sum "
-                    "of penalties), C08_max (theoretical maximum >= score).  QualityInfo of the implementation is recomputed in Coq "
+                    "of penalties), C08_max (theoretical maximum >= score), C08_overall / C08_overall_none (combined_quality: numerator = penalties of the optimised participants with "
+                    "choices + penalties of the rated ignored ones, denominator = their number; QualityComb.comb_num / comb_den are what the quality stream divides in binary32).  QualityInfo of the implementation is recomputed in Coq "
                     "(binary32 quotient compared bit for bit).  The rating of ignored pre-assigned participants: C08_external_rank / _first_rank / "
                     "_external_list / _external_instructors (only instructors WITH choices are counted: defect D18, fixed by 2b07851) on the reader "
                     "specification, and ext_quality_okb (recomputed declaratively from the raw export) on the implementation's output.",
